@@ -69,7 +69,7 @@ def singleFrame (p : Policy) : Bool :=
   | _ => false
 
 def seqOp (q : SeqSt) (ws : List String) : SeqSt × String :=
-  if singleFrame q.s.cfg.pol && !q.s.frames.isEmpty && (ws.head? == some "alloc" || ws.head? == some "coro" || ws.head? == some "cdrop" || ws.head? == some "cstart" || ws.head? == some "athrow" || ws.head? == some "cthrow") then
+  if singleFrame q.s.cfg.pol && !q.s.frames.isEmpty && (ws.head? == some "alloc" || ws.head? == some "coro" || ws.head? == some "cdrop" || ws.head? == some "cstart" || ws.head? == some "athrow" || ws.head? == some "cthrow" || ws.head? == some "afail" || ws.head? == some "cfail") then
     (q, "skip")
   else
   match ws with
@@ -93,6 +93,30 @@ def seqOp (q : SeqSt) (ws : List String) : SeqSt × String :=
             let sz := if thr == "athrow" then v else q.fs.getD (v % 8) 0
             match step q.s (Op.allocThrow k sz) with
             | (s', Res.unit) => ({ q with s := s' }, line s!"{thr} sz={sz} thrown=1 ex=+0-0" q.s.heap s'.heap)
+            | _ => (q, "skip")
+        | _, _ => (q, "skip")
+      else if thr == "afail" || thr == "cfail" then
+        -- the request's `operator new` (if the policy calls it at all) throws `bad_alloc`; otherwise an ordinary request
+        match k.toNat?, v.toNat? with
+        | some k, some v =>
+            let sz := if thr == "afail" then v else q.fs.getD (v % 8) 0
+            match step q.s (Op.allocFail k sz) with
+            | (s', Res.failed) =>
+                -- the failing `operator new` is an event of the trace but not of the model's heap: its size is what the
+                -- policy asks for
+                let asked := match q.s.cfg.pol with
+                  | .buffer i =>
+                      (q.s.vsize + max q.s.vsize ((need q.s.cfg sz + i - 1) / i - q.s.vsize)) * i
+                  | _ => need q.s.cfg sz
+                let l := line s!"{thr} sz={sz} thrown=1" q.s.heap s'.heap
+                ({ q with s := s' }, if l.contains ';' then l ++ s!" fail:{asked}" else l ++ s!" ; fail:{asked}")
+            | (s', Res.alloc id blk) =>
+                if thr == "afail" then
+                  ({ q with s := s' }, line (s!"alloc#{id} sz={sz}{bszTok s'} at={blkStr blk}" ++ exA q.s sz) q.s.heap s'.heap)
+                else
+                  ({ q with s := s', coros := id :: q.coros },
+                   line (s!"coro#{id} sz={sz}{bszTok s'} at={blkStr blk} in=1" ++ exA q.s sz) q.s.heap s'.heap)
+            | (_, Res.rejected) => (q, s!"assert sz={sz}")
             | _ => (q, "skip")
         | _, _ => (q, "skip")
       else if thr == "coro" || thr == "cdrop" then
@@ -160,6 +184,7 @@ def resStr : Mt.Res → String
   | Mt.Res.done id blk => s!"done f{id} at={blkStr blk}"
   | Mt.Res.freed id => s!"freed f{id} cn=ok"
   | Mt.Res.skip => "skip"
+  | Mt.Res.failed id => s!"failed f{id}"
 
 def schedOp (s : Mt.State) (nt : Nat) (ws : List String) : Mt.State × String :=
   match ws with
@@ -169,6 +194,20 @@ def schedOp (s : Mt.State) (nt : Nat) (ws : List String) : Mt.State × String :=
           if t ≥ nt || rest.isEmpty then (s, "skip") else
           let head := s!"t{t} "
           if s.pc t != Mt.Pc.idle then
+            -- `fail` counts only when the thread is about to call `operator new`
+            let aboutNew := match s.pc t with
+              | Mt.Pc.needNew _ _ => true
+              | Mt.Pc.needPriv _ _ => true
+              | _ => false
+            if rest.head? == some "fail" && aboutNew then
+              let (s', r) := Mt.stepGoFail s t
+              let sz := match s.pc t with
+                | Mt.Pc.needNew _ z => z + 8
+                | Mt.Pc.needPriv _ z => z + 8
+                | _ => 0
+              let l := mtLine (head ++ "fail " ++ resStr r) s.heap s'.heap
+              (s', if l.contains ';' then l ++ s!" fail:{sz}" else l ++ s!" ; fail:{sz}")
+            else
             let (s', r) := Mt.stepGo s t
             (s', mtLine (head ++ "go " ++ resStr r) s.heap s'.heap)
           else
